@@ -37,7 +37,7 @@ def run(tier):
     cov['exhaustive'] = True
     cov['rule'] = ('decoders: 20 container-opening paths (JSON [ {; CBOR definite/indefinite/1-byte-length/tagged arrays and maps; MessagePack fix/16/32 '
                    'arrays and maps; UBJSON plain/counted arrays and objects; BSON documents/arrays) x max_nesting_depth in Limits_ x depth in '
-                   '{limit-1..limit+2}; encoders: 5 formats x declared/undeclared arrays/objects x the same grid, fed event by event and as a json value through dump / dump_pretty / encode_X (refusal must carry the nesting error), and after 1 / 3 / 12 closed sibling containers (the verdict depends on the deepest nest only); UBJSON max_items {0,1,2,5} x announced '
+                   '{limit-1..limit+2}, each through decode_X<json>, a pull cursor walked to the end and a stream reader; encoders: 5 formats x declared/undeclared arrays/objects x the same grid, fed event by event and as a json value through dump / dump_pretty / encode_X (refusal must carry the nesting error), and after 1 / 3 / 12 closed sibling containers (the verdict depends on the deepest nest only); UBJSON max_items {0,1,2,5} x announced '
                    'counts; 23 claimed-length headers x payloads with the allocation peak compared with 64*supplied+256KiB, decoded to json from bytes and from a stream and straight into vector<int64> / vector<string> / map<string,int> / vector<vector<double>>; deep values: copy, compare, '
                    'dump, destroy, parse+destroy at depth 1024 and destroy at depth 10^6 / 2*10^5 (objects, alternating object/array, json and ojson) on a 1 MiB stack; '
                    'sibling family: 18 kinds of completed containers (incl. CBOR typed and multi-dimensional arrays) x 1/3/8 repetitions before a nest at the limit / one beyond')
